@@ -8,6 +8,7 @@ from ..core import AnalysisError, call_name, dotted, kwarg, norm, walk_no_nested
 from ..guards import sites
 from ..layout import Env, MiniArray, eval_expr, prod
 from ..registry import describe, rule
+from .. import tmatch as tm
 from ..util import calls_named, const_str, peel, returns_of
 
 BIF = "pgmpy/readwrite/BIF.py"
@@ -72,12 +73,23 @@ def layout(rc):
         return arr.reshape((arr.shape[0], prod(arr.shape[1:])))
 
     # ---------------- XMLBIF
+    def enclosing_for(fn, node):
+        best = None
+        for n in ast.walk(fn):
+            if isinstance(n, ast.For) and n is not node and any(x is node for x in ast.walk(n)):
+                if best is None or (n.end_lineno - n.lineno) < (best.end_lineno - best.lineno):
+                    best = n
+        return best
+
     w = repo.func(XML, "XMLBIFWriter.get_values")
     loop = [n for n in walk_no_nested(w.node) if isinstance(n, ast.For) and isinstance(n.iter, ast.Call) and "get_values" in norm(n.iter)]
     if not loop:
         raise AnalysisError("XMLBIFWriter.get_values: value loop not found")
     it = loop[0].iter
-    env = Env(cpd=T)
+    outer = enclosing_for(w.node, loop[0])
+    if outer is None or not isinstance(outer.target, ast.Name):
+        raise AnalysisError("XMLBIFWriter.get_values: CPD loop not found")
+    env = Env(**{outer.target.id: T})
     env["__get_values__"] = get_values
     fn = call_name(it)
     if fn == "ravel_f":
@@ -88,14 +100,19 @@ def layout(rc):
     resh = [n for n in walk_no_nested(r.node) if isinstance(n, ast.Assign) and isinstance(n.value, ast.Call) and call_name(n.value) == "reshape"]
     if not resh:
         raise AnalysisError("XMLBIFReader.get_values: reshape not found")
-    renv = Env(arr=seq.ravel("C"), variable="V", **{"self.variable_states": {"V": list(range(R))}})
+    rl = enclosing_for(r.node, resh[-1])
+    recv = dotted(resh[-1].value.func.value) if isinstance(resh[-1].value.func, ast.Attribute) else None
+    if rl is None or not isinstance(rl.target, ast.Name) or recv is None:
+        raise AnalysisError("XMLBIFReader.get_values: per-variable loop not found")
+    renv = Env(**{recv: seq.ravel("C"), rl.target.id: "V", "self.variable_states": {"V": list(range(R))}})
     two = eval_expr(resh[-1].value, renv)
     rc.ob(f"XMLBIF: writer {norm(it)} -> reader {norm(resh[-1].value, 120)}")
     _check_identity(rc, r, resh[-1], two, "XMLBIF")
     # GIVEN order = cpd.variables[1:] ; reader keeps document order
     wd = repo.func(XML, "XMLBIFWriter.get_definition")
     giv = sorted([n for n in walk_no_nested(wd.node) if isinstance(n, ast.For) and "GIVEN" in norm(n, 4000)], key=lambda n: n.end_lineno - n.lineno)
-    if not giv or norm(giv[0].iter) != "cpd.variables[1:]":
+    og = enclosing_for(wd.node, giv[0]) if giv else None
+    if not giv or og is None or tm.is_(giv[0].iter, "_c.variables[1:]", {"_c": dotted(og.target)}) is None:
         rc.fail(wd, wd.node, "XMLBIF: GIVEN elements must list the CPD's own evidence order", construct="XMLBIF given order")
     # ---------------- UAI
     wt = repo.func(UAI, "UAIWriter.get_tables")
@@ -104,36 +121,60 @@ def layout(rc):
     rt = repo.func(UAI, "UAIReader.get_tables")
     # writer table chain (BAYES branch = first occurrence)
     tab = None
-    for n in walk_no_nested(wt.node):
-        if isinstance(n, ast.Call) and call_name(n) in ("ravel", "flatten") and "cpd.values" in norm(n):
-            tab = n
-            break
+    cname_ = None
+    for n in sorted([x for x in walk_no_nested(wt.node) if isinstance(x, ast.Call)], key=lambda x: (x.lineno, x.col_offset)):
+        if call_name(n) in ("ravel", "flatten", "ravel_f") and tab is None:
+            lp_ = enclosing_for(wt.node, n)
+            if lp_ is not None and isinstance(lp_.target, ast.Name) and f"{lp_.target.id}.values" in norm(n):
+                tab, cname_ = n, lp_.target.id
     if tab is None:
         raise AnalysisError("UAIWriter.get_tables: table expression not found")
-    seq = eval_expr(tab, Env(**{"cpd.values": T}))
-    # writer scope
-    d = _defs(wf)
-    ev = d.get("evidence", [None])[0]
+    seq = eval_expr(tab, Env(**{f"{cname_}.values": T}))
+    # writer scope: the list comprehension that numbers the parents iterates the evidence order
+    ev = None
+    child_last = False
+    for lp_ in [n for n in walk_no_nested(wf.node) if isinstance(n, ast.For) and isinstance(n.target, ast.Name)]:
+        cn = lp_.target.id
+        for n_, b_ in tm.find_all(lp_, "_F = [str(_VS.index((_v, self.domain[_v]))) for _v in __EV]"):
+            evx = b_["__EV"]
+            from ..util import deep_resolve as _dr
+            loc = {x.targets[0].id: x.value for x in lp_.body if isinstance(x, ast.Assign) and isinstance(x.targets[0], ast.Name)}
+            evr = _dr(evx, {k: v for k, v in loc.items() if k != b_["_F"]})
+            if f"{cn}.variables" in norm(evr) and ev is None:
+                ev = (evr, cn)
+                _, bc = tm.find(lp_, "_CH = _c.variable", {"_c": cn})
+                child_last = (bc is not None and tm.has(lp_, "_F.append(str(_VS.index((_CH, self.domain[_CH]))))", dict(b_, **bc))) or \
+                    tm.has(lp_, "_F.append(str(_VS.index((_c.variable, self.domain[_c.variable]))))", dict(b_, _c=cn))
     if ev is None:
         raise AnalysisError("UAIWriter.get_functions: evidence order not found")
     variables = ["V", "A", "B"]
-    scope = list(eval_expr(ev, Env(**{"cpd.variables": variables}))) + ["V"]
-    appended_child_last = any(call_name(c) == "append" and "child_var" in norm(c) for c in repo.calls_in(wf))
-    if not appended_child_last:
+    scope = list(eval_expr(ev[0], Env(**{f"{ev[1]}.variables": variables}))) + ["V"]
+    if not child_last:
         rc.fail(wf, wf.node, "UAI (BAYES): the child must be the last variable of the function scope", construct="UAI child last")
     # reader: parents from the scope
     par_assign = [n for n in walk_no_nested(rt.node) if isinstance(n, ast.Assign) and "self.parents[" in norm(n.targets[0])]
-    rd = _defs(rm)
     rparents = None
     if par_assign:
-        rparents = list(eval_expr(par_assign[0].value.elt if False else _strip_prefix(par_assign[0].value), Env(function_variables=scope)))
+        pe = _strip_prefix(par_assign[0].value)
+        locs = {x.targets[0].id for x in walk_no_nested(rt.node) if isinstance(x, ast.Assign) and isinstance(x.targets[0], ast.Name)}
+        penv = Env(**{x.id: scope for x in ast.walk(pe) if isinstance(x, ast.Name) and x.id in locs})
+        rparents = list(eval_expr(pe, penv))
     rc.ob(f"UAI: writer scope {scope} for CPD variables {variables}; reader parents {rparents}")
     if rparents is None:
         rc.fail(rm, rm.node, "UAI: the reader does not derive the parent order of a table from its function scope", construct="UAI parents from scope")
     else:
         # reader values chain
         vres = [n for n in walk_no_nested(rm.node) if isinstance(n, ast.Assign) and isinstance(n.value, ast.Call) and call_name(n.value) == "reshape"]
-        renv = Env(values=seq, states=R)
+        rdefs = {}
+        for x in walk_no_nested(rm.node):
+            if isinstance(x, ast.Assign) and isinstance(x.targets[0], ast.Name):
+                rdefs.setdefault(x.targets[0].id, x.value)
+        renv = Env()
+        rv = dotted(vres[0].value.func.value)
+        renv[rv] = seq
+        for x in ast.walk(vres[0].value):
+            if isinstance(x, ast.Name) and x.id != rv and x.id in rdefs and isinstance(rdefs[x.id], ast.Call) and call_name(rdefs[x.id]) == "int":
+                renv[x.id] = R
         two = eval_expr(vres[0].value, renv)
         # the 2-D table is interpreted with evidence = rparents: permute to canonical (A, B) order
         if rparents != variables[1:]:
@@ -153,39 +194,71 @@ def layout(rc):
     # ---------------- NET
     wn = repo.func(NET, "NETWriter.net_cpd")
     d = _defs(wn)
-    arr = d.get("cpt_array", [None])[0]
+    a2s = [c for c in repo.calls_in(wn) if call_name(c) == "array2string" and c.args]
+    arr = d.get(dotted(a2s[0].args[0]), [None])[0] if a2s and isinstance(a2s[0].args[0], ast.Name) else (a2s[0].args[0] if a2s else None)
     if arr is None:
-        raise AnalysisError("NETWriter.net_cpd: cpt_array not found")
-    seqn = eval_expr(arr, Env(cpt=T)).ravel("C")
+        raise AnalysisError("NETWriter.net_cpd: printed array not found")
+    nenv = Env()
+    for k, v in d.items():
+        if tm.is_(v[0], "self.tables[_v]") is not None:
+            nenv[k] = T
+    seqn = eval_expr(arr, nenv).ravel("C")
     rn = repo.func(NET, "NETReader.get_values")
     d2 = _defs(rn)
-    c2 = d2.get("cpd_2d", [None])[0]
+    st2 = [n for n in ast.walk(rn.node) if isinstance(n, ast.Assign) and isinstance(n.targets[0], ast.Subscript) and isinstance(n.value, ast.Name)
+           and any(dotted(r_.value) == dotted(n.targets[0].value) for r_ in returns_of(rn))]
+    c2 = d2.get(st2[0].value.id, [None])[0] if st2 else None
     if c2 is None:
-        raise AnalysisError("NETReader.get_values: cpd_2d not found")
-    two = eval_expr(c2, Env(cpd_flat=seqn, par_states_prod=Q1 * Q2, var_state_num=R))
+        raise AnalysisError("NETReader.get_values: stored table not found")
+    e2 = Env()
+    for x in ast.walk(c2):
+        if isinstance(x, ast.Name) and x.id in d2:
+            dv = d2[x.id][0]
+            if isinstance(dv, ast.Call) and call_name(dv) == "array":
+                e2[x.id] = seqn
+            elif isinstance(dv, ast.Call) and call_name(dv) == "prod":
+                e2[x.id] = Q1 * Q2
+            elif isinstance(dv, ast.Call) and call_name(dv) == "len":
+                e2[x.id] = R
+    two = eval_expr(c2, e2)
     rc.ob(f"NET: writer {norm(arr)} -> reader {norm(c2)}")
     _check_identity(rc, rn, c2, two, "NET")
     # ---------------- BIF
     wb = repo.func(BIF, "BIFWriter.__str__")
-    txt = norm(wb.node, 100000)
-    dwb = _defs(wb)
-    ps = dwb.get("parent_states", [None])[0]
-    ok_w = ps is not None and norm(ps).replace(" ", "") == "product(*[cpd.state_names[var]forvarincpd.variables[1:]])"
-    tr = dwb.get("cpd_values_transpose", [None])[0]
-    ok_t = tr is not None and norm(tr) == "cpd.get_values().T"
-    idx = "cpd_values_transpose[index, :]" in txt and "enumerate(parent_states)" in txt
-    rc.ob(f"BIF writer: rows = product of the states of cpd.variables[1:] ({ok_w}); row i = column i of get_values ({ok_t and idx})")
-    if not (ok_w and ok_t and idx):
+    okb = False
+    for lp_ in [n for n in ast.walk(wb.node) if isinstance(n, ast.For)]:
+        b0 = tm.is_(lp_.iter, "enumerate(_PS)")
+        if b0 is None or not (isinstance(lp_.target, ast.Tuple) and len(lp_.target.elts) == 2):
+            continue
+        ix, stv = dotted(lp_.target.elts[0]), dotted(lp_.target.elts[1])
+        _, b1 = tm.find(wb.node, "_PS = product(*[_c.state_names[_v] for _v in _c.variables[1:]])", b0)
+        if b1 is None:
+            continue
+        _, b2 = tm.find(wb.node, "_TR = _c.get_values().T", b1)
+        if b2 is None:
+            continue
+        row = tm.find_all(lp_, "_TR[_ix, :]", dict(b2, _ix=ix), nested=True)
+        lab = tm.find_all(lp_, "', '.join(map(str, _st))", {"_st": stv}, nested=True)
+        if row and lab and tm.has(wb.node, "_c = self.model.get_cpds(__N)", b2):
+            okb = True
+    rc.ob(f"BIF writer: row i = column i of get_values, labelled with the i-th element of the product of the states of cpd.variables[1:]: {okb}")
+    if not okb:
         rc.fail(wb, wb.node, "BIF: the i-th conditional row must be column i of the 2-D table, labelled with the i-th element of the row-major product of the parents' states "
                 "in the CPD's own evidence order", construct="BIF writer rows")
     pw = repo.func(BIF, "BIFWriter.get_parents")
-    if "cpd.variables[1:]" not in norm(pw.node, 5000):
+    if not any(tm.is_(n_, "_R[_c.variable] = _c.variables[1:]") is not None for n_ in ast.walk(pw.node) if isinstance(n_, ast.Assign)):
         rc.fail(pw, pw.node, "BIF: the parents printed in the header must be the CPD's own evidence order", construct="BIF header order")
     rb = repo.func(BIF, "BIFReader._get_values_from_block")
-    t2 = norm(rb.node, 100000)
-    ok_r = "values_dict[tuple(states)] = vals" in t2 and "arr[:, index] = values_dict[combination]" in t2 and \
-        "enumerate(product(*[self.variable_states[var] for var in parents]))" in t2.replace("\n", " ")
-    ok_split = "states = prob_line[:len(parents)]" in t2 and "prob_line[len(parents):]" in t2
+    _, bn = tm.find(rb.node, "_VN, _PA = (_NM[0][0], _NM[0][1:])")
+    ok_r = ok_split = False
+    if bn is not None:
+        for lp_ in [n for n in ast.walk(rb.node) if isinstance(n, ast.For)]:
+            b1 = tm.is_(lp_, "for _ix, _cb in enumerate(product(*[self.variable_states[_v] for _v in _PA])):\n    _A[:, _ix] = _VD[_cb]", bn)
+            if b1 is not None:
+                for l2 in [n for n in ast.walk(rb.node) if isinstance(n, ast.For)]:
+                    b2 = tm.is_(l2, "for _pl in _CP:\n    _ST = _pl[:len(_PA)]\n    _VL = [float(_i) for _i in _pl[len(_PA):]]\n    _VD[tuple(_ST)] = _VL", b1)
+                    if b2 is not None:
+                        ok_r = ok_split = True
     rc.ob(f"BIF reader: rows keyed by state tuples and placed by the product over the header's parents ({ok_r}); split at len(parents) ({ok_split})")
     if not (ok_r and ok_split):
         rc.fail(rb, rb.node, "BIF: conditional rows must be keyed by their state tuple and placed at the index of that tuple in the product of the header's parent states",
